@@ -9,6 +9,10 @@ import os
 from ..translate import parse, find_func, func_defaults
 
 NAME = "StatsConsts"
+# constants of cnvlib/descriptives.py that harness/extractors/descriptives.py (C19) already generates with the
+# same names and values: reuse those definitions instead of redefining them in the shared namespace
+IMPORTS = ["CnvVerif.Generated.DescConsts"]
+SKIP_NAMES = {"BILOC_C", "BILOC_C_dec", "BILOC_MAX_ITER", "BIVAR_C", "BIVAR_C_dec", "MAD_SCALE", "MAD_SCALE_dec"}
 
 
 def _num_default(fn, src, name):
